@@ -26,5 +26,20 @@ for m in defs.MUTANTS:
         out += list(difflib.unified_diff(src.splitlines(True), dst.splitlines(True), "a/" + path, "b/" + path))
     d = os.path.join(here, "mutants", prop); os.makedirs(d, exist_ok=True)
     open(os.path.join(d, name + ".diff"), "w").write("".join(out))
-print(f"{len(defs.MUTANTS)} mutants written, {bad} bad patterns")
+for m in getattr(defs, "CONTROLS", []):
+    out = [f"# control {m['name']}: {m.get('why','')}\n"]
+    by_file = {}
+    for (path, old, new) in m["edits"]:
+        by_file.setdefault(path, []).append((old, new))
+    for path, subs in by_file.items():
+        src = open(os.path.join("/repo", path)).read()
+        dst = src
+        for old, new in subs:
+            if dst.count(old) != 1:
+                print(f"!! control/{m['name']}: pattern occurs {dst.count(old)} times in {path}: {old[:50]!r}"); bad += 1
+            dst = dst.replace(old, new, 1)
+        out += list(difflib.unified_diff(src.splitlines(True), dst.splitlines(True), "a/" + path, "b/" + path))
+    d = os.path.join(here, "controls"); os.makedirs(d, exist_ok=True)
+    open(os.path.join(d, m["name"] + ".diff"), "w").write("".join(out))
+print(f"{len(defs.MUTANTS)} mutants, {len(getattr(defs, 'CONTROLS', []))} controls written, {bad} bad patterns")
 sys.exit(1 if bad else 0)
